@@ -391,12 +391,15 @@ def judge_multiply(before, after, version, m, k, copy_names, policy):
             r.pos[0], who, t)))
   # --- edges: nothing invented
   oedges = {}           # canonical positional -> Rec (edges of the original)
+  mult = collections.Counter()   # identical parallel edges are distinct edges
   for r in rb:
     if is_edge(r, version) and m in edge_sides(r, version):
       oedges[canon_pos(r.rt, r.pos, version)] = r
+      mult[canon_pos(r.rt, r.pos, version)] += 1
   tom = lambda n: m if n in family else n
   images = collections.defaultdict(list)   # canon of original -> after recs
   seen = collections.Counter()
+  pre_of = {}
   for r in ra:
     if not is_edge(r, version):
       continue
@@ -404,6 +407,7 @@ def judge_multiply(before, after, version, m, k, copy_names, policy):
       continue
     seen[canon_pos(r.rt, r.pos, version)] += 1
     pre = canon_pos(r.rt, rename_sides(r, version, (tom, tom)), version)
+    pre_of[canon_pos(r.rt, r.pos, version)] = pre
     o = oedges.get(pre)
     if o is None:
       probs.append(("invented-edge", _ekind(r, version, family),
@@ -418,14 +422,14 @@ def judge_multiply(before, after, version, m, k, copy_names, policy):
           "original" if m in edge_sides(r, version) else "copy"),
           "{!r}: {}".format(r.text, t)))
   for c, n in sorted(seen.items()):
-    if n > 1:
+    if n > max(1, mult.get(pre_of.get(c), 1)):
       probs.append(("duplicate-edge", c[0], "{} written {} times".format(c, n)))
   # --- completeness, per allowed distribution end
   allowed = allowed_distribution_ends(before, version, m, k, policy)
   best = None
   for end in sorted(allowed, key=lambda x: (x is not None, x)):
     p = _completeness(oedges, images, version, m, family, k, end,
-                      demand_shared=(policy in ("L", "R", "equal")))
+                      demand_shared=(policy in ("L", "R", "equal")), mult=mult)
     if best is None or len(p) < len(best[1]):
       best = (end, p)
     if not p:
@@ -434,7 +438,9 @@ def judge_multiply(before, after, version, m, k, copy_names, policy):
   return probs, best[0], family
 
 
-def _completeness(oedges, images, version, m, family, k, end, demand_shared):
+def _completeness(oedges, images, version, m, family, k, end, demand_shared,
+                  mult=None):
+  mult = mult or {}
   probs = []
   dist_neigh = collections.defaultdict(list)   # neighbour end -> [canon]
   full = 0
@@ -453,7 +459,7 @@ def _completeness(oedges, images, version, m, family, k, end, demand_shared):
       else:
         nb = [(n, e) for n, e in inc if n != m][0]
         dist_neigh[nb].append(c)
-      full += k
+      full += k * mult.get(c, 1)
       present += len(imgs)
       continue
     # not distributed: complete
@@ -462,7 +468,7 @@ def _completeness(oedges, images, version, m, family, k, end, demand_shared):
         ren = lambda n, x=x: x if n == m else n
         want = canon_pos(o.rt, rename_sides(o, version, (ren, ren)), version)
         n = sum(1 for r in imgs if canon_pos(r.rt, r.pos, version) == want)
-        if n == 0:
+        if n < mult.get(c, 1):
           who = "original" if x == m else "copy"
           probs.append(("edge-not-copied", _ekind(o, version, {m}) + "/" + who,
                         "{!r} has no counterpart on {} ({})".format(
